@@ -13,11 +13,17 @@ pub(crate) fn to_hash_type(ty: &Type) -> HashType {
 }
 
 fn fill_elided_lifetimes(ty: &mut Type) {
-    if let Type::Reference(ty) = ty {
-        if ty.lifetime.is_none() {
-            ty.lifetime = Some(parse_quote!('static));
-        }
+    match ty {
+        Type::Reference(ty) => {
+            if ty.lifetime.is_none() {
+                ty.lifetime = Some(parse_quote!('static));
+            }
 
-        fill_elided_lifetimes(ty.elem.as_mut());
+            fill_elided_lifetimes(ty.elem.as_mut());
+        },
+        // a target written by a `macro_rules` fragment (`Into($t)`) or in parentheses
+        Type::Group(group) => fill_elided_lifetimes(group.elem.as_mut()),
+        Type::Paren(paren) => fill_elided_lifetimes(paren.elem.as_mut()),
+        _ => (),
     }
 }
